@@ -30,7 +30,9 @@ type treeCase struct {
 	Banned []string          `json:"banned,omitempty"`
 	// every banned kind passed as an option of its own (in this order), with an empty option between them
 	BanSplit bool `json:"bansplit,omitempty"`
-	Mode   string            `json:"mode,omitempty"` // tree (default) | build
+	// one Option value per kind, created once per PROCESS and handed to every build that asks for it
+	BanReuse bool   `json:"banreuse,omitempty"`
+	Mode     string `json:"mode,omitempty"` // tree (default) | build
 	// how the root file is named when it is handed to the library: "" = absolute path (default);
 	// "empty" = unnamed file, "rel" = "root.jst", "dotrel" = "./root.jst" - the three with the
 	// project directory as working directory
